@@ -31,7 +31,7 @@ impl Prop for C10 {
         "C10"
     }
     fn rule(&self) -> String {
-        "generated bit-vector transition systems (<= 6 state bits quick / 9 thorough, inputs, constraints, init over earlier states or inputs, constant and next-less states) x generalisation {unsat cores on, off} x solver profile (bitwuzla, z3, cvc5 with check-sat-assuming; yices-smt2 with cores disabled as the tool does) x unsat-core mode of the reference solver {z3's core, all assumptions, deletion-minimal, core plus random extras} x model seed; two configurations per system. Oracle: full explicit-state reachability fixpoint of the reference simulator: Success iff no bad state is reachable at any depth, Fail iff one is; Unknown, an error or a panic is a failure; witnesses are validated by replay. A case exceeding 180 s is reported as inconclusive (exit 2), not as a violation. Non-trivial: safe system with >= 3 reachable states and diameter >= 2, or unsafe at depth >= 2; distinct by hash of (system, configuration).".into()
+        "generated bit-vector transition systems (<= 6 state bits quick / 9 thorough, inputs, constraints, init over earlier states or inputs, constant and next-less states) x generalisation {unsat cores on, off} x solver profile (bitwuzla, z3, cvc5 with check-sat-assuming; yices-smt2 with cores disabled as the tool does) x unsat-core mode of the reference solver {z3's core, all assumptions, deletion-minimal, core plus random extras} x model seed; two configurations per system. Oracle: full explicit-state reachability fixpoint of the reference simulator: Success iff no bad state is reachable at any depth, Fail iff one is; Unknown, an error or a panic is a failure; witnesses are validated by replay. Systems whose shallowest bad state is deeper than 12 (quick) / 24 (thorough) steps, or safe systems with a diameter above 32 / 64, are excluded and counted (PDR needs a frame per step and every query runs through the reference solver); a case exceeding 180 s is reported as inconclusive (exit 2), not as a violation. Non-trivial: safe system with >= 3 reachable states and diameter >= 2, or unsafe at depth >= 2; distinct by hash of (system, configuration).".into()
     }
     fn assumptions(&self) -> Vec<String> {
         vec!["z3 4.8.12 behind the shim answers the tiny queries correctly; the shim's alternative cores are valid answers to get-unsat-assumptions (supersets of an unsat core / deletion-minimal subsets checked with z3)".into()]
@@ -64,6 +64,14 @@ impl Prop for C10 {
         let shallow = min_bad == Some(0) || (min_bad.is_none() && reach.diameter == 0 && reach.reachable < 3);
         if shallow && seed % 4 != 0 {
             rec.exclude(if min_bad == Some(0) { "bad in the initial state (3 of 4 sub-sampled away)" } else { "safe with < 3 reachable states and diameter 0 (3 of 4 sub-sampled away)" });
+            return Ok(());
+        }
+        // PDR needs at least as many frames as the counterexample is deep and every query goes through
+        // the reference solver: very deep systems (chained counters reach depth 32+) take minutes.
+        // They are outside the time budget of a case, not outside the property; counted.
+        let (max_depth, max_diam) = if tier == Tier::Quick { (12, 32) } else { (24, 64) };
+        if min_bad.map(|d| d > max_depth).unwrap_or(false) || (min_bad.is_none() && reach.diameter > max_diam) {
+            rec.exclude("counterexample depth / diameter beyond the per-case time budget");
             return Ok(());
         }
         if std::env::var("PV_DEBUG").is_ok() {
